@@ -102,7 +102,7 @@ def theorem_names(prop: str) -> list[str]:
     return out
 
 
-def build_and_audit(prop: str) -> dict:
+def build_and_audit(prop: str, tier: str = "quick") -> dict:
     """returns dict(proofs_ok, driver_ok, obligations, discharged, theorems{name: axioms|error}, messages)"""
     res = {"proofs_ok": False, "driver_ok": False, "obligations": 0, "discharged": 0, "theorems": {}, "messages": []}
     names = theorem_names(prop)
@@ -152,6 +152,15 @@ def build_and_audit(prop: str) -> dict:
         res["messages"].append(f"axiom audit failed for {notok[:5]}: {out_a[:1000]}")
         res["broken"] = notok[:5] or ["audit"]
     res["proofs_ok"] = rc_a == 0 and not notok
+    if tier == "thorough" and res["proofs_ok"]:
+        # independent re-check of the compiled proof files of this property with the toolchain's external checker
+        mods = [f"DictIO.Props.{m}" for m in prop_modules(prop)]
+        rc_l, out_l = sh(["lake", "env", "leanchecker"] + mods, LEAN)
+        res["leanchecker"] = {"modules": len(mods), "ok": rc_l == 0}
+        if rc_l != 0:
+            res["proofs_ok"] = False
+            res["messages"].append("leanchecker rejected the compiled proofs: " + out_l[-1500:])
+            res["broken"] = ["leanchecker"]
     return res
 
 
@@ -178,6 +187,9 @@ def write_evidence(prop: str, tier: str, seed: int, ctx: Ctx | None, ba: dict, w
         "proofs_ok": ba.get("proofs_ok", False),
         "driver_ok": ba.get("driver_ok", False),
     }
+    if ba.get("leanchecker"):
+        cov["leanchecker"] = ba["leanchecker"]      # thorough tier: compiled proof files re-checked by the external checker
+        cov["checker_cmd"] += f"; lake env leanchecker <{ba['leanchecker']['modules']} modules of the property>"
     if ctx is not None:
         cov.update({
             "evaluations": ctx.evaluations,
@@ -227,7 +239,7 @@ def classify(mod, findings: list[dict], v: dict) -> str | None:
 def run_property(prop: str, tier: str, seed: int) -> int:
     t0 = time.time()
     ok_gen, gen_msg = regenerate()
-    ba = build_and_audit(prop)
+    ba = build_and_audit(prop, tier)
     if not ok_gen:
         ba["proofs_ok"] = False
         ba["messages"].append("table extraction failed: " + gen_msg)
